@@ -652,3 +652,70 @@ def lower11(ctx) -> List[Ob]:
         else:
             out.append(bad("LOWER-11", fn.qualname, key, where, f"self.{attr} is initialised in transform() only after code generation has started"))
     return out
+
+
+@rule("LOWER-12", 5, "front-end block indices are fresh: every handler reserves the indices self.block_index .. +n-1 it names and then advances the counter by at least n before anything else can allocate")
+def lower12(ctx) -> List[Ob]:
+    out: List[Ob] = []
+    front = ctx.prog.cls(FRONT)
+    CNT = "self.block_index"
+
+    def offset(e: ast.AST) -> Optional[int]:
+        if A.unparse(e) == CNT:
+            return 0
+        if isinstance(e, ast.BinOp) and isinstance(e.op, ast.Add) and A.unparse(e.left) == CNT and isinstance(e.right, ast.Constant) and isinstance(e.right.value, int):
+            return e.right.value
+        return None
+
+    for mname, m in sorted(front.methods.items()):
+        reads = [n for n in A.walk_no_nested(m.node) if isinstance(n, ast.Attribute) and A.unparse(n) == CNT]
+        if not reads:
+            continue
+        handled: Set[int] = set()
+        for seq_owner in A.walk_no_nested(m.node):
+            for fld in ("body", "orelse", "finalbody"):
+                seq = getattr(seq_owner, fld, None)
+                if not isinstance(seq, list):
+                    continue
+                i = 0
+                while i < len(seq):
+                    st = seq[i]
+                    offs = []
+                    j = i
+                    while j < len(seq) and isinstance(seq[j], (ast.Assign, ast.AnnAssign)) and seq[j].value is not None and offset(seq[j].value) is not None:
+                        offs.append(offset(seq[j].value))
+                        j += 1
+                    if not offs:
+                        i += 1
+                        continue
+                    key = f"reserve {len(offs)} indices"
+                    where = ctx.where(m, st)
+                    for k in range(i, j):
+                        handled.update(id(x) for x in ast.walk(seq[k]))
+                    adv = seq[j] if j < len(seq) else None
+                    n_adv = None
+                    if isinstance(adv, ast.AugAssign) and isinstance(adv.op, ast.Add) and A.unparse(adv.target) == CNT and isinstance(adv.value, ast.Constant) and isinstance(adv.value.value, int):
+                        n_adv = adv.value.value
+                        handled.update(id(x) for x in ast.walk(adv))
+                    if sorted(offs) != list(range(len(offs))):
+                        out.append(bad("LOWER-12", m.qualname, key, where, f"the reserved offsets {offs} are not the distinct values 0..{len(offs) - 1}: two blocks of this construct share an index"))
+                    elif n_adv is None:
+                        out.append(bad("LOWER-12", m.qualname, key, where, "the counter is not advanced right after the indices are read: the next construct lowered (a nested statement or expression) is given the same indices"))
+                    elif n_adv < len(offs):
+                        out.append(bad("LOWER-12", m.qualname, key, where, f"{len(offs)} indices are reserved but the counter advances by {n_adv}: the last index is handed out again"))
+                    else:
+                        out.append(ok("LOWER-12", m.qualname, key, where, f"offsets {offs}, then {CNT} += {n_adv}"))
+                    i = j + 1
+        for r in reads:
+            if id(r) in handled:
+                continue
+            par = A.parent(r)
+            st = r
+            while not isinstance(st, ast.stmt):
+                st = A.parent(st)
+            # the initialisation in __init__ / transform
+            if isinstance(st, (ast.Assign, ast.AnnAssign)) and isinstance(r.ctx, ast.Store) and isinstance(st.value, ast.Constant) and isinstance(st.value.value, int) and st.value.value >= 1:
+                out.append(ok("LOWER-12", m.qualname, "counter initialised", ctx.where(m, st), f"starts at {st.value.value} (0 is the entry block)", nontrivial=False))
+                continue
+            out.append(bad("LOWER-12", m.qualname, "other use: " + A.alpha_key(st)[:80], ctx.where(m, st), f"'{A.unparse(st)[:70]}' uses the block counter outside the reserve-then-advance idiom"))
+    return out
